@@ -32,9 +32,7 @@ type Mutex struct {
 //go:norace
 func hold(g *simrt.G, m any) {
 	if g != nil {
-		simrt.RaceOff()
-		g.Held = append(g.Held, m)
-		simrt.RaceOn()
+		g.Held = pushAny(g.Held, m)
 	}
 }
 
@@ -43,9 +41,7 @@ func unhold(g *simrt.G, m any) {
 	if g != nil {
 		for i := len(g.Held) - 1; i >= 0; i-- {
 			if g.Held[i] == m {
-				simrt.RaceOff()
-				g.Held = append(g.Held[:i], g.Held[i+1:]...)
-				simrt.RaceOn()
+				g.Held = dropAny(g.Held, i)
 				return
 			}
 		}
@@ -68,9 +64,7 @@ func (m *Mutex) Lock() {
 		return
 	}
 	w := &waiter{ch: make(chan struct{}), g: g}
-	simrt.RaceOff()
-	m.waiters = append(m.waiters, w)
-	simrt.RaceOn()
+	m.waiters = pushW(m.waiters, w)
 	if g != nil {
 		g.Tag = "mutex.Lock"
 	}
@@ -111,9 +105,7 @@ func (m *Mutex) Unlock() {
 	if n := len(m.waiters); n > 0 {
 		i := simrt.Intn(n)
 		w := m.waiters[i]
-		simrt.RaceOff()
-		m.waiters = append(m.waiters[:i], m.waiters[i+1:]...)
-		simrt.RaceOn()
+		m.waiters = dropW(m.waiters, i)
 		m.owner = w.g
 		hold(w.g, m)
 		close(w.ch) // ownership handed over, stays locked
@@ -162,9 +154,7 @@ func (m *RWMutex) RLock() {
 		return
 	}
 	w := &waiter{ch: make(chan struct{}), g: g}
-	simrt.RaceOff()
-	m.waiters = append(m.waiters, w)
-	simrt.RaceOn()
+	m.waiters = pushW(m.waiters, w)
 	if g != nil {
 		g.Tag = "rwmutex.RLock"
 	}
@@ -208,9 +198,7 @@ func (m *RWMutex) Lock() {
 		return
 	}
 	w := &waiter{ch: make(chan struct{}), writer: true, g: g}
-	simrt.RaceOff()
-	m.waiters = append(m.waiters, w)
-	simrt.RaceOn()
+	m.waiters = pushW(m.waiters, w)
 	if g != nil {
 		g.Tag = "rwmutex.Lock"
 	}
@@ -257,9 +245,7 @@ func (m *RWMutex) release() {
 			m.readers++
 		}
 		hold(w.g, m)
-		simrt.RaceOff()
-		m.waiters = append(m.waiters[:i], m.waiters[i+1:]...)
-		simrt.RaceOn()
+		m.waiters = dropW(m.waiters, i)
 		close(w.ch)
 	}
 }
@@ -311,9 +297,7 @@ func (wg *WaitGroup) Wait() {
 		return
 	}
 	c := make(chan struct{})
-	simrt.RaceOff()
-	wg.waiters = append(wg.waiters, c)
-	simrt.RaceOn()
+	wg.waiters = pushC(wg.waiters, c)
 	g := simrt.Cur()
 	if g != nil {
 		g.Tag = "wg.Wait"
@@ -332,4 +316,71 @@ func (wg *WaitGroup) Go(f func()) {
 		defer wg.Done()
 		f()
 	})
+}
+
+// Slice growth and copying go through runtime.growslice / slicecopy, which report their accesses to the race
+// detector even when the caller is go:norace (and runtime.RaceDisable only mutes synchronisation events).  The
+// simulator's own lists are therefore grown and shifted element by element, in uninstrumented code.
+
+//go:norace
+func pushAny(s []any, v any) []any {
+	if len(s) < cap(s) {
+		s = s[:len(s)+1]
+		s[len(s)-1] = v
+		return s
+	}
+	ns := make([]any, len(s)+1, 2*cap(s)+4)
+	for i := range s {
+		ns[i] = s[i]
+	}
+	ns[len(s)] = v
+	return ns
+}
+
+//go:norace
+func dropAny(s []any, i int) []any {
+	for j := i; j+1 < len(s); j++ {
+		s[j] = s[j+1]
+	}
+	s[len(s)-1] = nil
+	return s[:len(s)-1]
+}
+
+//go:norace
+func pushW(s []*waiter, v *waiter) []*waiter {
+	if len(s) < cap(s) {
+		s = s[:len(s)+1]
+		s[len(s)-1] = v
+		return s
+	}
+	ns := make([]*waiter, len(s)+1, 2*cap(s)+4)
+	for i := range s {
+		ns[i] = s[i]
+	}
+	ns[len(s)] = v
+	return ns
+}
+
+//go:norace
+func dropW(s []*waiter, i int) []*waiter {
+	for j := i; j+1 < len(s); j++ {
+		s[j] = s[j+1]
+	}
+	s[len(s)-1] = nil
+	return s[:len(s)-1]
+}
+
+//go:norace
+func pushC(s []chan struct{}, v chan struct{}) []chan struct{} {
+	if len(s) < cap(s) {
+		s = s[:len(s)+1]
+		s[len(s)-1] = v
+		return s
+	}
+	ns := make([]chan struct{}, len(s)+1, 2*cap(s)+4)
+	for i := range s {
+		ns[i] = s[i]
+	}
+	ns[len(s)] = v
+	return ns
 }
